@@ -710,7 +710,8 @@ pub(crate) fn write_optional_description(
     if let Some(description) = description {
         query_type_declaration.push_str(&"  ".repeat(indentation_level as usize).to_string());
         query_type_declaration.push_str("/**\n");
-        query_type_declaration.push_str(description.lookup());
+        // a comment terminator inside the description must not end the doc comment
+        query_type_declaration.push_str(&description.lookup().replace("*/", "*\\/"));
         query_type_declaration.push('\n');
         query_type_declaration.push_str(&"  ".repeat(indentation_level as usize).to_string());
         query_type_declaration.push_str("*/\n");
